@@ -23,6 +23,8 @@ ST_ = "magpylib/_src/style.py"
 TU_ = "magpylib/_src/display/traces_utility.py"
 TMF = FD + "field_BH_triangularmesh.py"
 MUTANTS = [
+    ("C09", "empty-position-accepted-again", IC_, "        if inp.size == 0:\n            raise MagpylibBadUserInput(", "        if False:\n            raise MagpylibBadUserInput(", "red"),
+    ("C09", "empty-orientation-accepted-again", IC_, "        if np.size(inpQ) == 0:", "        if False:", "red"),
     ("C19", "frame-index-clamp-off-by-one", TU_, "    inds[inds >= path_len] = path_len - 1", "    inds[inds >= path_len - 1] = path_len - 2", "red"),
     ("C06", "cylinder-core-general-case-only-if-all-rows", FD + "field_BH_cylinder.py", "    if np.any(mask_general):\n        rp = r + 1", "    if np.all(mask_general):\n        rp = r + 1", "red"),
     ("C05", "circle-core-quadratic-in-current", FD + "field_BH_circle.py", "    pf = k / np.sqrt(r) / q2 / 20 / r0 * 1e-6 * i0", "    pf = k / np.sqrt(r) / q2 / 20 / r0 * 1e-6 * i0 * abs(i0)", "red"),
